@@ -685,4 +685,82 @@ theorem outcomes_classified (env : Env) (g : Grammar) : ∀ o, o ∈ outcomes en
       · subst heq
         exact classified_of_rerr hfp (candidates2_rerr he')
 
+/-! ## the fuel of `resolveCross` is immaterial once it suffices
+
+`resolveStep` is one call of `_resolve_rule` on a rule reference with the nested call left
+open (`resolveCross_succ`: the model is its iteration).  A run that does not exhaust its fuel
+is reproduced by every larger fuel (`resolveCross_stable`). -/
+
+/-- one call of `_resolve_rule` on a `RuleCrossRef`, the nested call left open -/
+def resolveStep (env : Env) (st : St) (rec : List String → String → M Unit) (chain : List String)
+    (name : String) : M Unit := do
+  let found ← contains env st name
+  if !found then throw .semantic
+  else do
+    let cr ← getitem env st name
+    match cr with
+    | .loc c =>
+        match c.peg with
+        | .cross n2 _ =>
+            if chain.contains c.name then throw .semantic
+            else rec (c.name :: chain) n2
+        | .node .. => pure ()
+    | _ => pure ()
+
+theorem resolveCross_succ (env : Env) (st : St) (f : Nat) (chain : List String) (name : String) :
+    resolveCross env st (f + 1) chain name = resolveStep env st (resolveCross env st f) chain name := rfl
+
+def recErr : M Unit := .error (.py .recursionError)
+
+theorem resolveStep_congr {env : Env} {st : St} {r1 r2 : List String → String → M Unit}
+    {chain : List String} {name : String}
+    (h : ∀ c n, r1 c n ≠ recErr → r2 c n = r1 c n)
+    (hne : resolveStep env st r1 chain name ≠ recErr) :
+    resolveStep env st r2 chain name = resolveStep env st r1 chain name := by
+  unfold resolveStep at hne ⊢
+  revert hne
+  cases contains env st name with
+  | error e => intro _; rfl
+  | ok found =>
+      cases found with
+      | false => intro _; rfl
+      | true =>
+          simp only [ok_bind, Bool.not_true, Bool.false_eq_true, if_false]
+          cases getitem env st name with
+          | error e => intro _; rfl
+          | ok cr =>
+              cases cr with
+              | base n => intro _; rfl
+              | foreign n => intro _; rfl
+              | loc c =>
+                  simp only [ok_bind]
+                  cases hp : c.peg with
+                  | node k rn root attr kids => intro _; rfl
+                  | cross n2 s2 =>
+                      simp only []
+                      by_cases hch : chain.contains c.name = true
+                      · simp only [hch, if_true]
+                        intro _; trivial
+                      · simp only [hch, Bool.false_eq_true, if_false]
+                        intro hne
+                        exact h _ _ hne
+
+theorem resolveCross_mono1 (env : Env) (st : St) : ∀ (f : Nat) (chain : List String) (name : String),
+    resolveCross env st f chain name ≠ recErr →
+    resolveCross env st (f + 1) chain name = resolveCross env st f chain name
+  | 0, chain, name, h => absurd rfl h
+  | f + 1, chain, name, h => by
+      rw [resolveCross_succ env st (f + 1), resolveCross_succ env st f]
+      rw [resolveCross_succ] at h
+      exact resolveStep_congr (fun c n hne => resolveCross_mono1 env st f c n hne) h
+
+theorem resolveCross_stable (env : Env) (st : St) (f : Nat) (chain : List String) (name : String)
+    (h : resolveCross env st f chain name ≠ recErr) :
+    ∀ k, resolveCross env st (f + k) chain name = resolveCross env st f chain name
+  | 0 => rfl
+  | k + 1 => by
+      have ih := resolveCross_stable env st f chain name h k
+      have : resolveCross env st (f + k) chain name ≠ recErr := by rw [ih]; exact h
+      rw [← Nat.add_assoc, resolveCross_mono1 env st (f + k) chain name this, ih]
+
 end GramLoad
